@@ -183,7 +183,8 @@ def c03 (c : Ctx) (ob : Obs) : Verdict :=
   if !a.isRun then .na
   else
     let req := requested a
-    if !(req.all fun n => (findTask c n).isSome) then .na
+    -- a requested name that is no task (an empty or blank argument included): an error, and nothing runs
+    if !(req.all fun n => (findTask c n).isSome) then ofBool (ob.exit != 0 && ob.log.isEmpty)
     else
       let run := closure c req
       let names := (groupLog ob.log).filterMap (fun g => (taskAt c g.1).map (·.name))
